@@ -32,7 +32,7 @@ ASSUMPTIONS = [
     "watchdog aborts (a task blocked on a real lock held by a parked thread) are inconclusive, never violations",
     "context_behavior and template_cache_size are process-wide settings, fixed per case",
 ]
-BOUNDS = {"quick": {"hyp": 480, "single_pairs": 14, "double_pairs": 2}, "thorough": {"hyp": 40000, "single_pairs": 26, "double_pairs": 4}}
+BOUNDS = {"quick": {"hyp": 480, "single_pairs": 15, "double_pairs": 5}, "thorough": {"hyp": 40000, "single_pairs": 27, "double_pairs": 5}}
 CFG = {"provide": True, "inject": True, "errors": False, "isfilled": False, "max_nodes": 3, "max_comps": 2, "max_depth": 2, "provide_weight": 3, "inject_pct": 70, "ticks": True, "hooks": False, "elems": True, "idecho": True}
 
 CFG_ASSETS = {"assets": True, "errors": False, "isfilled": False, "max_nodes": 3, "max_comps": 3, "max_depth": 2, "elems": True}
@@ -89,6 +89,25 @@ def build_tasks(case):
                 vf_tags.TICK["fn"] = None  # tag/filter ticks are process-global: only gcd/inject ticks are used here
                 out = Template(src).render(Context(dict(ctx)))
                 return normalize_ids(out)  # ids kept (renamed by first appearance): a lost / foreign data-djc-id attribute is a difference, sorted(map(tuple, rec.injected))
+
+            tasks.append(run)
+        elif kind == "sharedinst":
+            # ONE component instance rendered by both tasks (what Component.as_view() does with the instance it creates)
+            if ("inst",) not in built:
+
+                class Shared(Component):
+                    template = '<b data-echo="{{ myid }}">{{ v }}|{{ seen }}|{{ again }}</b>'
+
+                    def get_context_data(self, v=""):
+                        return {"v": v, "seen": self.input.kwargs["v"], "myid": self.id}
+
+                    def on_render_before(self, context, template):
+                        context["again"] = self.input.kwargs["v"]
+
+                built[("inst",)] = Shared()
+
+            def run(x=t["x"], inst=built[("inst",)]):
+                return normalize_ids(inst.render(kwargs={"v": x}, render_dependencies=False))
 
             tasks.append(run)
         elif kind == "dynexpr":
@@ -477,6 +496,7 @@ DOUBLE_PAIRS = [
     {"tasks": [{"t": "render", "program": _PROV2}, {"t": "fail", "program": _PROV2, "at": 2}], "mode": "isolated", "cache_size": 2, "focus": ["provide.py"]},
     {"tasks": [{"t": "fail", "program": _PROV, "at": 2}, {"t": "render", "program": _PROV}], "mode": "django", "cache_size": 2, "focus": ["provide.py"]},
     {"tasks": [{"t": "render", "program": _PROV2}, {"t": "render", "program": _PROV}], "mode": "django", "cache_size": 2, "focus": ["provide.py", "component.py"]},
+    {"tasks": [{"t": "sharedinst", "x": "A"}, {"t": "sharedinst", "x": "B"}], "mode": "django", "cache_size": 2, "focus": ["component.py"]},
 ]
 FIXED_PAIRS = [
     {"tasks": [{"t": "filecomp", "how": 0}, {"t": "filecomp", "how": 1}], "mode": "django", "cache_size": 2},
@@ -486,6 +506,7 @@ FIXED_PAIRS = [
     {"tasks": [{"t": "render", "program": _slots_prog("1")}, {"t": "render", "program": _slots_prog("2")}], "mode": "django", "cache_size": 2, "yield": "all", "yield_files": ["slots.py", "template.py"]},
     {"tasks": [{"t": "deps", "program": _ASSETS_INH, "shared": "sh", "type": "document"}, {"t": "deps", "program": _ASSETS_INH, "shared": "sh", "type": "document"}], "mode": "django", "cache_size": 2, "yield": "all", "yield_files": ["component_media.py"]},
     {"tasks": [{"t": "dynexpr", "x": "Aa"}, {"t": "dynexpr", "x": "B"}], "mode": "django", "cache_size": 2, "yield": "all", "yield_files": ["util/tag_parser.py", "expression.py", "util/template_tag.py"]},
+    {"tasks": [{"t": "sharedinst", "x": "A"}, {"t": "sharedinst", "x": "B"}], "mode": "django", "cache_size": 2, "yield": "all", "yield_files": ["component.py"]},
     {"tasks": [{"t": "render", "program": _ELEM}, {"t": "render", "program": _ELEM}], "mode": "django", "cache_size": 2},
     {"tasks": [{"t": "render", "program": _ELEM}, {"t": "fail", "program": _ELEM, "at": 3}], "mode": "isolated", "cache_size": 2},
     {"tasks": [{"t": "compile", "srcs": [0, 0, 0, 0]}, {"t": "compile", "srcs": [1, 2, 1, 3]}], "mode": "django", "cache_size": 1},
